@@ -2,6 +2,7 @@
 from __future__ import annotations
 
 import ast
+import itertools
 
 from ..model import AnalysisError, dotted, unparse, walk_no_nested
 from ..q import FuncView, arg, arg_text, callee_last, contains, kwargs, strip_await
@@ -449,53 +450,7 @@ def _nothing_runs(ck, repo):
 def single_root_traversal(ck, repo):
     """SingleRootField looks through named and inline fragments: the root of a subscription may be a spread
     (shared with C14.R2: a subscription with several root fields must get one errors-only response)."""
-    f = repo.func(RULES_PKG + "single_root_field.py", "SingleRootField._validate_selection_set")
-    fv = FuncView(f)
-    p = f.positional_params  # self, operation, selection_set, fragments, path
-    rec = [c for c in fv.calls(f.name)]
-    by_kind = {}
-    for c in rec:
-        for t, o in fv.conditions(c):
-            if o == "T" and t.startswith("isinstance(selected, "):
-                by_kind[t[len("isinstance(selected, "):-1]] = c
-    sp = by_kind.get("FragmentSpreadNode")
-    ok = sp is not None and isinstance(fv.stmt_of(sp), ast.Return) and unparse(sp.args[1]).endswith(".selection_set") and unparse(sp.args[1]) != "selected.selection_set"
-    ck.ob("single-root-field: a root that is a named-fragment spread is judged by the fragment's selection set", ok, f, sp or f.node, construct="single-root:spread",
-          detail="`subscription { ...F } fragment F on Subscription { a b }` selects two root fields")
-    if sp is not None:
-        frag = unparse(sp.args[1]).rsplit(".", 1)[0]
-        src = [n for n in walk_no_nested(f.node) if isinstance(n, ast.Assign) and unparse(n.targets[0]) == frag]
-        ck.ob("single-root-field: the fragment is looked up by the spread's name", len(src) == 1 and unparse(src[0].value) == f"_find_fragment({p[3]}, selected.name.value)", f,
-              src[0] if src else sp, construct="single-root:lookup")
-    il = by_kind.get("InlineFragmentNode")
-    ok = il is not None and isinstance(fv.stmt_of(il), ast.Return) and unparse(il.args[1]) == "selected.selection_set"
-    ck.ob("single-root-field: a root that is an inline fragment is judged by its selection set", ok, f, il or f.node, construct="single-root:inline")
-    err = [r for r in fv.returns() if "graphql_error_from_nodes" in unparse(r.value)]
-    ok = len(err) == 1 and set(fv.conditions(err[0])) == {("nb_selections > 1", "T")}
-    src = [n for n in walk_no_nested(f.node) if isinstance(n, ast.Assign) and unparse(n.targets[0]) == "nb_selections"]
-    ok = ok and len(src) == 1 and unparse(src[0].value) == f"len({p[2]}.selections)"
-    ck.ob("single-root-field: more than one selection at any level reached this way is an error", ok, f, err[0] if err else f.node, construct="single-root:count")
-    # the whole decision: count x kind of the single selection x fragment found
-    import itertools
-    from ..pathtab import Atoms, evaluate
-    from .c04 import _ret_class
-    atoms = Atoms({"nb_selections > 1": "many", "nb_selections == 1": "one", "isinstance(selected, FragmentSpreadNode)": "spread", "isinstance(selected, InlineFragmentNode)": "inline",
-                   "frag": "found"})
-    for many, one, spread, inline, found in itertools.product([False, True], repeat=5):
-        if (many and one) or (spread and inline) or (found and not spread):
-            continue
-        if not one and (spread or inline or found):
-            continue
-        val = {"many": many, "one": one, "spread": spread, "inline": inline, "found": found}
-        want = "error" if many else ("fragment" if one and spread and found else ("inline" if one and inline else "none"))
-        got = set()
-        for tr in fv.cfg.simulate(lambda n, env: evaluate(n.ast, env, val, atoms)):
-            rv = _ret_class(tr)
-            t = rv if isinstance(rv, str) else unparse(rv)
-            got.add("error" if "graphql_error_from_nodes" in t else ("none" if t == "[]" else ("inline" if t.startswith(f"self.{f.name}(") and "selected.selection_set" in t else
-                                                                                             ("fragment" if t.startswith(f"self.{f.name}(") else t))))
-        ck.ob(f"single-root-field table {val}", got == {want}, f, f.node, construct="single-root:table:" + "".join(str(int(v)) for v in val.values()),
-              detail=f"got {sorted(got)}, want {want}" + atoms.note())
+    single_root_terms(ck, repo)
     ff = repo.func(RULES_PKG + "single_root_field.py", "_find_fragment")
     r = [x for x in FuncView(ff).returns() if unparse(x.value) != "None"]
     ok = len(r) == 1 and (f"{unparse(r[0].value)}.name.value == {ff.positional_params[1]}", "T") in FuncView(ff).conditions(r[0])
@@ -547,3 +502,59 @@ def _cycle_traversal(ck, repo):
     first = sites[0].rule if sites else None
     ck.ob("cycle rule is the first document-level rule to run", first == "fragment-spreads-must-not-form-cycles", d, sites[0].call if sites else d.node,
           construct="cycle:first")
+
+
+def single_root_terms(ck, repo):
+    """E13: SingleRootField._validate_selection_set interpreted over every selection-set shape up to three fragments deep
+    (field / found spread / unknown spread / inline fragment, zero to two selections per level) and compared with the
+    decision the rule implements: the set reached by following a lone spread or inline fragment is in error iff it holds
+    more than one selection; an unknown fragment is somebody else's business.  Independent of how the traversal is written
+    (recursive validation, find-the-root helper plus one count, loop)."""
+    from .. import absint
+    from ..absint import RecV, Sym, App
+    cls = repo.cls(RULES_PKG + "single_root_field.py", "SingleRootField")
+    f = repo.func(RULES_PKG + "single_root_field.py", "SingleRootField._validate_selection_set")
+    counter = itertools.count()
+
+    def field():
+        return RecV("FieldNode", _label="f")
+
+    def sset(sels):
+        return RecV("SelectionSetNode", selections=list(sels), _label="{" + " ".join(repr(x) for x in sels) + "}")
+
+    def shapes(depth):
+        base = [[], [field()], [field(), field()]]
+        out = [("plain", sset(b), [], "error" if len(b) > 1 else "ok") for b in base]
+        if depth == 0:
+            return out
+        inner = shapes(depth - 1)
+        for tag, ss, frags, verdict in inner:
+            il = RecV("InlineFragmentNode", selection_set=ss, _label="...on X " + repr(ss))
+            out.append(("inline", sset([il]), frags, verdict))
+            name = f"F{next(counter)}"
+            sp = RecV("FragmentSpreadNode", name=RecV("NameNode", value=name), _label="..." + name)
+            fd = RecV("FragmentDefinitionNode", name=RecV("NameNode", value=name), selection_set=ss, _label="fragment " + name)
+            out.append(("spread", sset([sp]), frags + [fd], verdict))
+            # a fragment next to a field: two selections at this level, whatever the fragment holds
+            out.append(("inline+field", sset([il, field()]), frags, "error"))
+        unk = RecV("FragmentSpreadNode", name=RecV("NameNode", value="Nope"), _label="...Nope")
+        out.append(("unknown-spread", sset([unk]), [], "ok"))
+        return out
+
+    import itertools as _it
+    n = 0
+    for tag, ss, frags, verdict in shapes(3):
+        for named in (True, False):
+            op = RecV("OperationDefinitionNode", name=RecV("NameNode", value="S") if named else None, selection_set=ss, operation_type="subscription")
+            it = absint.Interp(repo, f.module, classes={"SingleRootField": cls})
+            me = RecV("SingleRootField", _extensions=Sym("extensions"))
+            try:
+                got = it.run(f, [me, op, ss, list(frags), Sym("path")])
+                kind = "ok" if got == [] else ("error" if isinstance(got, list) and len(got) == 1 and isinstance(got[0], App) and repr(got[0].func).endswith("graphql_error_from_nodes") else f"other: {got!r}")
+            except absint.Unsupported as e:
+                raise AnalysisError(f"{f.short}: cannot be interpreted over selection shapes: {e}")
+            except absint.PyRaise as e:
+                kind = f"raises {e.name}"
+            n += 1
+            ck.ob(f"single-root-field on {ss!r}: {verdict}", kind == verdict, f, f.node, construct=f"single-root:shape:{tag}:{ss!r}"[:120], detail=f"got {kind}")
+    ck.count("single_root_shapes", n, 40)
